@@ -13,7 +13,7 @@ os.environ.setdefault('TQDM_DISABLE', '1')
 ATOMTYPES = {'P1': (0.47, 72.0), 'P2': (0.43, 56.0), 'P3': (0.38, 36.0), 'Q1': (0.52, 90.0)}
 
 
-def gen_moltype(rng, name, nres=None, multi_atom=False, shape=None, resnames=None):
+def gen_moltype(rng, name, nres=None, multi_atom=False, shape=None, resnames=None, restart=False):
     """a molecule type: residues of 1 (or 1-3) atoms, residue graph = path / branched / ring"""
     nres = nres or rng.randint(1, 6)
     shape = shape or rng.choice(['path', 'path', 'tree', 'ring'] if nres >= 3 else ['path'])
@@ -26,12 +26,17 @@ def gen_moltype(rng, name, nres=None, multi_atom=False, shape=None, resnames=Non
         redges = [(rng.randrange(i), i) for i in range(1, nres)]
     atoms, bonds, first = [], [], []
     idx = 1
+    # restart: the residue numbering starts again at 1 inside the molecule (merged chains); residues that share a
+    # number differ in name, so (number, name) still identifies a residue
+    cut = rng.randint(1, nres - 1) if restart and nres >= 2 else None
+    if cut is not None:
+        resnames = ['RA' if r < cut else 'RB' for r in range(nres)]
     for r in range(nres):
         k = rng.randint(1, 3) if multi_atom else 1
         first.append(idx)
         for a in range(k):
             atype = rng.choice(sorted(ATOMTYPES))
-            atoms.append({'idx': idx, 'atype': atype, 'resid': r + 1, 'resname': resnames[r],
+            atoms.append({'idx': idx, 'atype': atype, 'resid': (r + 1) if cut is None or r < cut else r - cut + 1, 'res': r, 'resname': resnames[r],
                           'name': f'{"ABC"[a]}{r % 9}' if multi_atom else 'B', 'cgnr': idx, 'charge': 0.0,
                           'mass': ATOMTYPES[atype][1]})
             if a > 0:
